@@ -149,16 +149,34 @@ def needs_braces(words, n):
     return n > 1 or (bool(words) and words[0].startswith('{'))
 
 
-def brace_wrapper(words, n):
-    """(opening, closing) in exactly the form sna2skool writes ("Braces in comments"):
-    one opening brace, plus one more per unmatched closing brace in the text (only the
-    nesting *count* matters); a space protects a text that itself starts with '{' or ends
-    with '}'; as many closing braces as are needed to bring the count back to zero."""
+def _prefix_balances(words):
+    out = []
+    c = 0
+    for w in words:
+        c += w.count('{') - w.count('}')
+        out.append(c)
+    return out
+
+
+def brace_wrapper(words, n, general=False):
+    """(opening, closing) of the brace wrapper ("Braces in comments").
+
+    general=False: exactly the form sna2skool writes - one opening brace, plus one more per
+    unmatched closing brace in the whole text (only the total nesting count is looked at);
+    a space protects a text that itself starts with '{' or ends with '}'; as many closing
+    braces as are needed to bring the count back to zero.
+    general=True: the smallest wrapper the documented rules need for *any* text - enough
+    opening braces that the count stays positive after every prefix of the text."""
     if not needs_braces(words, n):
         return '', ''
-    bal = brace_balance(words)
-    opening = '{' * (1 - bal) if bal < 0 else '{'
-    closing = '}' * max(1 + bal, 1)
+    pb = _prefix_balances(words) or [0]
+    bal = pb[-1]
+    if general:
+        k = 1 - min(0, min(pb))
+    else:
+        k = 1 - bal if bal < 0 else 1
+    opening = '{' * k
+    closing = '}' * max(k + bal, 1)
     if words and words[0].startswith('{'):
         opening += ' '
     if words and words[-1].endswith('}'):
@@ -169,19 +187,15 @@ def brace_wrapper(words, n):
 def brace_form_allowed(words, n):
     """The documented rule: "the comment terminates on the line where the total number of
     closing braces becomes equal to or greater than the total number of opening braces".
-    With the wrapper above the count is >= 1 after the whole text; the comment is only
-    representable (for every possible line split) if the count also stays >= 1 after every
-    proper prefix of the text - otherwise the group closes early and the rest becomes the
-    next instruction's comment.  Texts failing this are outside the generated space."""
-    if not needs_braces(words, n):
+    With sna2skool's wrapper the count is >= 1 after the whole text; a comment that spans
+    several instructions is only safe for every possible line split if the count also stays
+    >= 1 after every proper prefix of the text - otherwise the group can close early and the
+    rest becomes the next instruction's comment.  (Such texts need the general wrapper.)"""
+    if n < 2 or not needs_braces(words, n):
         return True
     opening, _ = brace_wrapper(words, n)
-    count = opening.count('{')
-    for w in words[:-1]:
-        count += w.count('{') - w.count('}')
-        if count <= 0:
-            return False
-    return True
+    k = opening.count('{')
+    return all(k + b > 0 for b in _prefix_balances(words)[:-1])
 
 
 def strip_group_braces(text):
@@ -282,7 +296,7 @@ def group_comment_lines(g, in_width):
     n = len(g.oplens)
     words = source_words(g.comment)
     # brace counting sees the whole source text, block markup included
-    opening, closing = brace_wrapper(words, n)
+    opening, closing = brace_wrapper(words, n, general=not brace_form_allowed(words, n))
     if not needs_braces(words, n):
         lines = greedy_wrap(words, in_width)
         return [lines]
